@@ -437,6 +437,17 @@ func (cs *ContractSet) ParseContractFile(path string, pkgPath string) error {
 					}
 					ac.Clause = c
 				case "stop":
+				case "start":
+					// at <anchor> before|after start   (cut.go)
+				case "cut":
+					// at <anchor> before cut [tag] [invariant]   (cut.go)
+					if strings.TrimSpace(r3) != "" {
+						c, err := mkClause(r3)
+						if err != nil {
+							return err
+						}
+						ac.Clause = c
+					}
 				default:
 					return fmt.Errorf("%s:%d: unknown at-kind %q", path, l.no, w)
 				}
